@@ -42,12 +42,12 @@ var ruleSets = map[string]func(a *Analyzer, r *Results){
 
 // which rule sets each property needs
 var propSets = map[string][]string{
-	"C01": {"prim", "r3", "more", "ingest", "proof", "c06"},
-	"C02": {"prim", "r3", "c02", "c12", "c20", "c06"},
+	"C01": {"prim", "r3", "more", "ingest", "proof", "c06", "c18"},
+	"C02": {"prim", "r3", "c02", "c12", "c20", "c06", "c18"},
 	"C03": {"prim", "r3", "ingest", "c20", "c02", "c06"},
 	"C04": {"prim", "more", "ingest", "proof", "r3"},
 	"C05": {"r3", "more", "ingest", "chan", "loops", "setters", "c19f", "c20", "registry", "proof"},
-	"C06": {"prim", "c06"},
+	"C06": {"prim", "c06", "c18", "r3"},
 	"C07": {"prim", "r3", "more", "ingest", "proof", "c20"},
 	"C08": {"prim", "r3", "more", "ingest", "proof", "c17"},
 	"C09": {"prim", "r3", "more", "ingest", "c20", "proof"},
@@ -59,9 +59,9 @@ var propSets = map[string][]string{
 	"C15": {"r3", "more", "ingest", "registry", "locks", "loops", "sync", "shutdown", "chan"},
 	"C16": {"r3", "more", "chan", "spawn", "shutdown", "timer", "c12", "registry", "ingest", "locks"},
 	"C17": {"r3", "more", "ingest", "c17", "c12", "setters"},
-	"C18": {"prim", "more", "c18", "ingest"},
+	"C18": {"prim", "more", "c18", "ingest", "r3"},
 	"C19": {"r3", "more", "c19f", "timer", "chan", "loops", "ingest"},
-	"C20": {"r3", "more", "c20"},
+	"C20": {"r3", "more", "c20", "ingest"},
 }
 
 // minimum number of obligation instances per rule confirmed by reading (vacuity guard)
